@@ -176,6 +176,10 @@ def run(chk):
         "palette variables, currentColor, odd viewBoxes) and the repository's sample SVGs.  Non-trivial = the scenario "
         "has a reuse hit (model) / >=2 layers (random); distinct by abstract scenario."
     )
+    # trusted base first: the SVG-side oracle must agree with an independent renderer (MachineryError otherwise)
+    from . import oracle_selftest
+
+    chk.notes["oracle_selftest_vs_resvg"] = oracle_selftest.svg_side(24 if quick else 200)
     recs = CC.run_compile_model(chk, "quick" if quick else "small")
     chk.notes["model_scenarios"] = len(recs)
     replay_model_scenarios(chk, recs, 90 if quick else 2500)
